@@ -453,3 +453,28 @@ Proof.
     + injection Gn as Gn. eapply Hy; eassumption.
     + eapply IHa; eassumption.
 Qed.
+
+Lemma get_single_d3 : forall v p k x,
+  d3 v = true -> get v p true k = (x, false) -> d3 x = true.
+Proof.
+  induction v as [v IHv] using value_ind'. intros p k x H3 G.
+  destruct p as [|s r].
+  { rewrite get_nil in G. injection G as <-. exact H3. }
+  destruct v; try (rewrite get_scalar in G by discriminate; injection G as <-; reflexivity).
+  - rewrite get_doc in G. destruct (empty_path (s :: r)); [injection G as <-; reflexivity|].
+    apply d3_doc in H3. simpl in IHv.
+    induction d as [|[k0 y] t IHd]; [injection G as <-; reflexivity|].
+    simpl in G. inversion IHv as [|? ? Hy Ht]; subst. inversion H3 as [|? ? H3y H3t]; subst.
+    destruct (String.eqb k0 s).
+    + eapply Hy; eassumption.
+    + apply IHd; assumption.
+  - rewrite get_arr in G. destruct (empty_path (s :: r)); [injection G as <-; reflexivity|].
+    apply d3_arr in H3. simpl in IHv.
+    destruct (parse_index s) as [i|]; [|discriminate].
+    destruct (gnth a i r true k) as [res|] eqn:Gn; [|discriminate]. subst res.
+    revert i Gn. induction a as [|y t IHa]; intros i Gn; [discriminate|].
+    simpl in Gn. inversion IHv as [|? ? Hy Ht]; subst. inversion H3 as [|? ? [_ H3y] H3t]; subst.
+    destruct (i =? 0)%Z.
+    + injection Gn as Gn. eapply Hy; eassumption.
+    + eapply IHa; eassumption.
+Qed.
